@@ -716,7 +716,7 @@ def rand_c11(seed, tier, cases=None):
     out = []
     for _ in range(1500 if tier == "quick" else 20000):
         mtu = rng.choice([5, 6, 7, 9, 13, 50, 200, 1200, rng.randint(5, 1500)])
-        frames = [dict(len=rng.choice([1, 2, mtu - 4, mtu - 3, mtu - 1, mtu, mtu + 1, 2 * mtu, rng.randint(1, 3 * mtu), rng.randint(1, 15 * mtu) if mtu < 150 else 300]), salt=rng.randint(0, 200)) for _ in range(rng.randint(1, 9))]
+        frames = [dict(len=rng.choice([1, 2, mtu - 4, mtu - 3, mtu - 1, mtu, mtu + 1, 2 * mtu, rng.randint(1, 3 * mtu), rng.randint(1, 15 * mtu) if mtu < 150 else 300]), salt=rng.randint(0, 200), fillv=rng.choice([-1, -1, -1, 255, 0, rng.randint(0, 255)])) for _ in range(rng.randint(1, 9))]
         for f in frames:
             f["len"] = max(1, f["len"])
         out.append(dict(fam="C11", kind="payload", valid=True, mtu=mtu, pidon=rng.random() < 0.7, startid=rng.choice([0, 1, 120, 126, 127, 128, 300, 32760, 32766, 32767, rng.randint(0, 32767)]),
@@ -833,7 +833,7 @@ def rand_c12(seed, tier, cases=None):
             hdr = dict(profile=pr, existing=False, idx=0, nonkey=rng.random() < 0.5, show=rng.random() < 0.5, errres=rng.random() < 0.5, deep=rng.random() < 0.5,
                        cs=rng.randint(0, 7), range=rng.random() < 0.5, ssx=rng.random() < 0.5, ssy=rng.random() < 0.5,
                        w=rng.choice([1, 2, 640, 1920, 65535, rng.randint(1, 65535)]), h=rng.choice([1, 480, 1080, 65535, rng.randint(1, 65535)]))
-            frames.append(dict(hdr=hdr, body=rng.choice([0, 1, mtu - 12, mtu - 3, mtu, 2 * mtu, rng.randint(0, 3 * mtu), rng.randint(0, 14 * mtu) if mtu < 150 else 40]), salt=rng.randint(0, 200)))
+            frames.append(dict(hdr=hdr, body=rng.choice([0, 1, mtu - 12, mtu - 3, mtu, 2 * mtu, rng.randint(0, 3 * mtu), rng.randint(0, 14 * mtu) if mtu < 150 else 40]), salt=rng.randint(0, 200), fillv=rng.choice([-1, -1, 255, 0, rng.randint(0, 255)])))
         for f in frames:
             f["body"] = max(0, f["body"])
         out.append(dict(fam="C12", kind="payload", valid=True, mtu=mtu, flexible=rng.random() < 0.5, startid=rng.choice([0, 32767, 32766, rng.randint(0, 32767)]),
